@@ -216,7 +216,8 @@ STATS = {"find_calls": 0, "list_calls": 0, "served_requests": 0, "staticfiles_fi
          "newline_differ_hidden_by_dollar_on_forbidden_side": 0, "uppercase_backend_names_judged": 0,
          "uppercase_backend_names_exposed_nondefault_config": 0, "uppercase_backend_names_exposed_default_config": 0,
          "listed_files_shadowed_by_directory_in_dev_server": 0, "directories_returned_by_find": 0,
-         "configs_with_flagged_or_grouped_regex": 0, "verdicts_depending_on_a_regex_flag": 0}
+         "real_collectstatic_not_applicable_file_dir_destination_conflict": 0,
+         "real_collectstatic_not_applicable_backslash_destination_collision": 0, "configs_with_flagged_or_grouped_regex": 0, "verdicts_depending_on_a_regex_flag": 0}
 _RF = []
 
 
@@ -596,6 +597,21 @@ def oracle(fails, base, case, cfg, lookups, obs, locinfo):
             # compared by content only - that is the destination side of collectstatic, not the finder
             fw = first_wins(listed)
             bs = {p.replace("\\", "/") for _, p in fw if "\\" in p}
+            # A destination that is a FILE for one listed entry and a DIRECTORY prefix of another (file `...` in one component directory,
+            # `.../x.jss` in another; also through the '\\' rewriting) cannot be materialised in one STATIC_ROOT: Django's own storage code then
+            # raises FileExistsError / NotADirectoryError / OSError or skips a copy, for ANY finder. The real-copy comparison does not apply
+            # to such layouts (counted); find / list / --dry-run oracles and the model comparison still do. Everything else stays a failure.
+            dests = sorted({p.replace("\\", "/") for _, p in fw})
+            dset = set(dests)
+            conflict = any("/".join(d.split("/")[:i]) in dset for d in dests for i in range(1, d.count("/") + 1))
+            if conflict:
+                STATS["real_collectstatic_not_applicable_file_dir_destination_conflict"] += 1
+                return
+            if len(dset) != len(fw):
+                # `b\\s.js` of one directory and `b/s.js` of another: distinct for collectstatic's found_files, the SAME file for the destination
+                # storage, which then invents a free name (`b/s_7FbOHiU.js`): Django's storage again, not applicable (counted)
+                STATS["real_collectstatic_not_applicable_backslash_destination_collision"] += 1
+                return
             wantreal = {p: r + "/" + p for r, p in fw if p.replace("\\", "/") not in bs}
             gotreal = {k: v for k, v in sv["real"].items() if k not in bs}
             if gotreal != wantreal or not {v for k, v in sv["real"].items() if k in bs} <= {r + "/" + p for r, p in fw}:
